@@ -523,20 +523,38 @@ def spec_check(tab, res):
     return bad
 
 
+HAND_TABLES = [   # smallest witnesses of the two refuted statements (Props/C06.v: C06_prel_neg_inf_refuted, C06_single_line_table_refuted)
+    {"U": 3, "npar": 1, "s": 1, "rows": [[NINF, 2, 0, 3, [0]], [1, 2, 1, 3, [1]], [2, 2, 2, 3, [2]]]},
+    {"U": 2, "npar": 1, "s": 1, "rows": [[1, 2, 0, 3, [0]]]},
+]
+
+
+def from_impl_table(t, s):
+    def back(v):
+        return v if isinstance(v, str) else int(round(v * s))
+    return {"U": t["U"], "npar": t["npar"], "s": s,
+            "rows": [[back(r[0]), back(r[1]), int(r[2]), back(r[3]), [back(p) for p in r[4]]] for r in t["rows"]]}
+
+
 def search(ctx):
     rep = ctx.report
-    done = list(getattr(ctx, "c06", []))
+    done = []
+    replay = getattr(ctx, "replay", None)
+    if replay and isinstance(replay.get("input"), dict) and "table" in replay["input"]:
+        tab = from_impl_table(replay["input"]["table"], replay["input"].get("model_units_scale", 1))
+        P = int(replay["input"].get("ranks", 1))
+        done.append((tab, P, run_impl(ctx, [tab], P)[0]))
     # an extra batch with its own stream: more -inf, tables that may have < 2 rows
     n = 150 if ctx.quick else 3000
     R = esrv.rng(ctx.seed, "C06/search")
-    tabs = [gen_table(R, allow_crash=True, more_ninf=True) for _ in range(n)]
-    tabs.append({"U": 2, "npar": 1, "s": 1, "rows": [[1, 2, 0, 3, [0]]]})
-    tabs.append({"U": 3, "npar": 1, "s": 1, "rows": [[NINF, 2, 0, 3, [0]], [1, 2, 1, 3, [1]], [2, 2, 2, 3, [2]]]})
+    tabs = HAND_TABLES + [gen_table(R, allow_crash=True, more_ninf=True) for _ in range(n)]
+    outs = []
     try:
         outs = run_impl_parallel(ctx, [(tabs, 1)])[0]
         done += [(t, 1, o) for t, o in zip(tabs, outs)]
     except Exception as e:
         rep.fail("broken-correspondence", "search driver failed: %s" % e, "C06:search-driver", theorem="search")
+    done += list(getattr(ctx, "c06", []))      # every output gathered by the correspondence (1-4 ranks)
     reported = set()
     counts = {}
     for tab, P, res in done:
@@ -550,7 +568,7 @@ def search(ctx):
                      observed={"final": res.get("final"), "exc": res.get("exc"), "detail": obs}, expected=exp)
     rep.extra["search_tables"] = len(done)
     rep.extra["search_violation_counts"] = counts
-    rep.extra["search_distribution_extra_batch"] = table_stats(tabs, outs) if done and len(done) >= len(tabs) else {}
+    rep.extra["search_distribution_extra_batch"] = table_stats(tabs, outs) if len(outs) == len(tabs) else {}
 
 
 LEVEL_TEXT = ("Machine-checked theorems (Coq) on a model of combine_DL.main, for EVERY table (any number of uniques and variants, any mix of finite, "
